@@ -117,7 +117,7 @@ def triggers_of(program: dict, facts: dict[str, dict]) -> dict[str, list[str]]:
         aggwin = bool(ops & (AGG_OPS | WIN_OPS))
         if op == "filter" and f.get("win_in_scope"):
             hit("D1", sid)
-        if op == "mutate" and aggwin and f.get("limit"):
+        if op == "mutate" and aggwin and f.get("limit") is not None:
             hit("D2", sid)
         if f.get("chain", {}).get("sliced0") and op in ("filter", "summarize", "arrange", "group_by", "join", "union", "mutate"):
             hit("D4", sid)
